@@ -1,5 +1,5 @@
 """C08 — reserved metador_* namespace (P-tier: path predicate, guard order of every wrapped path method)."""
-from . import contops, interface, listing, metapaths, wrappers
+from . import attrsacl, contops, interface, listing, metapaths, wrappers
 
 
 def build(reg):
@@ -8,5 +8,6 @@ def build(reg):
     keep += contops.add_contops(reg)  # delete / move / copy: reserved paths refused BEFORE anything happens (also for group destinations with name=)
     keep += [s for s in interface.add_interface_raw(reg) if "C08" in s.props]  # bookkeeping directories appear and disappear with the objects
     keep += listing.add_listing(reg)  # what the listings show
+    keep += [s for s in attrsacl.add_group_contains(reg) + attrsacl.add_attrsacl(reg) if "C08" in s.props]  # `in`, item assignment and attribute fall-through of a group wrapper never reach the raw group
     keep += metapaths.add_metapaths(reg)  # node path <-> reserved metadata directory
-    return {"verify": keep, "lemmas": [], "trusted": ["T7 wrapt.ObjectProxy: _self_* attributes are local to the wrapper; __wrapped__ is the raw object", "raw object: every method call on __wrapped__ is recorded as a RAW effect"] + metapaths.T_PATHS + listing.T_LIST, "assumptions": contops.T_OPS}
+    return {"verify": keep, "lemmas": [], "trusted": ["T7 wrapt.ObjectProxy: _self_* attributes are local to the wrapper; __wrapped__ is the raw object", "raw object: every method call on __wrapped__ is recorded as a RAW effect"] + metapaths.T_PATHS + listing.T_LIST + attrsacl.T_ATTRS + attrsacl.T_CONTAINS, "assumptions": contops.T_OPS}
